@@ -1,7 +1,9 @@
 (* Check/Chk_C15.v -- correspondence checker for C15: the delivery logs (unaborted and aborted at
-   index k), exit codes of every run_step call, Plan.aborted flags and the PlanAborted probe of a
-   real plan run vs. Model/Events.v; plus the prefix-closure predicate evaluated directly on the
-   implementation's two logs. *)
+   index k), exit codes of every run_step call, Plan.aborted flags of every plan level and the
+   PlanAborted probe of a real plan run (plans nested to depth 3, observers registered per event type,
+   optionally through BasicOptimizer with its abort / results callbacks) vs. Model/Events.v; plus the
+   property's predicates evaluated directly on the implementation's logs: prefix + closure, every
+   started step finished (innermost first), every event delivered as one block to its recipient list. *)
 From Coq Require Import String List Bool Arith ZArith.
 From Ropt Require Import Base.ListX Model.Step Model.Events Gen.Generated Check.Chk_C14.
 Import ListNotations.
@@ -17,8 +19,7 @@ Definition decode (z : Z) : oentry :=
 Record robs := {
   o_zlog : list Z;
   o_exits : list (Z * Z);        (* (step id, exit code value) per run_step call; -2 = PlanAborted raised *)
-  o_outer_ab : bool;             (* Plan.aborted of the outer plan at the end *)
-  o_inner_ab : bool;             (* Plan.aborted of the nested plan *)
+  o_flags : list bool;           (* Plan.aborted of every plan level at the end, outermost first ([]: not observable) *)
   o_probe : bool;                (* a further run_step raised PlanAborted *)
   o_escaped : bool               (* an exception escaped from a run_step call *)
 }.
@@ -26,10 +27,10 @@ Record robs := {
 Definition o_log (o : robs) : list oentry := map decode (o_zlog o).
 
 Record case := {
-  c_outer : list nat;            (* recording handlers of the outer plan *)
-  c_inner : list nat;            (* recording handlers of the nested plan *)
-  c_obs : list nat;              (* observers (registered for every event type) *)
-  c_steps : list stepspec;
+  c_plans : list (list nat);     (* recording handlers of every plan level, outermost first, in registration order *)
+  c_obs : list (nat * list Z);   (* observers in registration order, each with the event types it is registered for *)
+  c_steps : list (nat * stepspec);  (* run_step calls on the outermost plan: (step id, what the step does) *)
+  c_basic : bool;                (* run through BasicOptimizer: exit code and log only (no Plan object to inspect) *)
   c_k : option nat;
   c_full : robs;                 (* implementation, nobody aborts *)
   c_run : robs                   (* implementation, entry k aborts *)
@@ -67,33 +68,87 @@ Definition ret_z (r : ret) : Z := match r with RExit c => code_z c | RPlanAborte
 Definition exits_eqb (m : list (nat * ret)) (o : list (Z * Z)) : bool :=
   forallb2 (fun a b => Z.eqb (Z.of_nat (fst a)) (fst b) && Z.eqb (ret_z (snd a)) (snd b)) m o.
 
-Definition world_of (c : case) : world := {| plans := [c_outer c; c_inner c]; obsv := c_obs c |}.
+(* OptimizerContext._subscribers[event type]: the observers registered for that type, in registration order *)
+Definition world_of (c : case) : world :=
+  {| plans := c_plans c;
+     obsv := fun e => map fst (filter (fun o => existsb (Z.eqb (evt_z e)) (snd o)) (c_obs c)) |}.
 
-Definition inner_aborted (x : list (nat * ret)) : bool :=
-  existsb (fun sr => (level_of (fst sr) =? 1) && match snd sr with RExit UserAbort => true | _ => false end) x.
+(* Plan.aborted of the plan at nesting level lvl >= 1: one of its run_step calls returned USER_ABORT *)
+Definition level_aborted (x : list (nat * ret)) (lvl : nat) : bool :=
+  existsb (fun sr => (level_of (fst sr) =? lvl) && match snd sr with RExit UserAbort => true | _ => false end) x.
+Definition flags_eqb (ab : bool) (x : list (nat * ret)) (o : list bool) : bool :=
+  match o with
+  | [] => true
+  | top :: below => Bool.eqb ab top && list_eqb Bool.eqb (map (level_aborted x) (seq 1 (length below))) below
+  end.
 
-Definition match_run (w : world) (ps : list prog) (k : option nat) (o : robs) : bool :=
+Definition match_run (basic : bool) (w : world) (ps : list prog) (k : option nat) (o : robs) : bool :=
   let '(l, x, ab) := run_steps w ps k [] false in
   forallb2 entry_eqb l (o_log o) && exits_eqb x (o_exits o) &&
-  Bool.eqb ab (o_outer_ab o) && Bool.eqb (inner_aborted x) (o_inner_ab o) &&
-  Bool.eqb ab (o_probe o) && negb (o_escaped o).
+  flags_eqb ab x (o_flags o) && (basic || (Bool.eqb ab (o_probe o) && (length (o_flags o) =? length (plans w)))) &&
+  negb (o_escaped o).
 
-(* the property evaluated directly on the two observed logs *)
+(* ---- the property evaluated directly on the observed logs ------------------------------------------ *)
 Definition prefix_closure_ok (c : case) : bool :=
   match to_entries (o_log (c_full c)), to_entries (o_log (c_run c)) with
   | Some D, Some L => entries_eqb (predict (world_of c) D (c_k c)) L
   | _, _ => false
   end.
+(* every step that delivered its START event delivered its FINISHED event, innermost first (also after an abort) *)
+Definition all_closed (o : robs) : bool :=
+  match to_entries (o_log o) with
+  | Some L => match scan L [] with [] => true | _ => false end
+  | None => false
+  end.
+(* the unaborted log is a sequence of evaluator calls and complete blocks: every event to the handlers of the emitting
+   plan, then of its ancestors, then to the observers registered for its type, each exactly once *)
+Fixpoint strip (rc : list nat) (sid : nat) (e : evt) (l : list entry) : option (list entry) :=
+  match rc with
+  | [] => Some l
+  | r :: rc' =>
+      match l with
+      | Deliv r' s' e' :: l' => if (r =? r') && (s' =? sid) && evt_eqb e e' then strip rc' sid e l' else None
+      | _ => None
+      end
+  end.
+Fixpoint blocks (fuel : nat) (w : world) (l : list entry) : bool :=
+  match fuel with
+  | O => match l with [] => true | _ => false end
+  | S fuel' =>
+      match l with
+      | [] => true
+      | Call :: t => blocks fuel' w t
+      | Deliv _ sid e :: _ =>
+          match recipients w (level_of sid) e with
+          | [] => false
+          | rc => match strip rc sid e l with Some rest => blocks fuel' w rest | None => false end
+          end
+      end
+  end.
+Definition blocks_ok (c : case) : bool :=
+  match to_entries (o_log (c_full c)) with
+  | Some D => blocks (length D) (world_of c) D
+  | None => false
+  end.
 
 Definition nodup_nat (l : list nat) : bool :=
   forallb (fun i => negb (existsb (Nat.eqb (nth i l 0)) (firstn i l))) (seq 0 (length l)).
 
+(* side conditions of the theorems of Props/C15.v, evaluated on every scenario: distinct recipients, every event has a
+   recipient on every level, step ids not reused inside a step, no step ends with USER_ABORT of its own accord *)
+Definition hypotheses_ok (c : case) (ps : list prog) : bool :=
+  nodup_nat (concat (c_plans c) ++ map fst (c_obs c)) &&
+  forallb (fun lvl => forallb (fun e => match recipients (world_of c) lvl e with [] => false | _ => true end) all_evts)
+          (seq 0 (length (c_plans c))) &&
+  forallb wfb ps && forallb quietb ps &&
+  forallb (fun s => fst s <? 100) (c_steps c).
+
 Definition check_case (c : case) : bool :=
-  nodup_nat (c_outer c ++ c_inner c ++ c_obs c) &&
-  match compile_steps 0 (c_steps c) false with
+  match compile_steps (c_steps c) [] with
   | Some ps =>
-      match_run (world_of c) ps None (c_full c) &&
-      match_run (world_of c) ps (c_k c) (c_run c) &&
-      prefix_closure_ok c
+      hypotheses_ok c ps &&
+      match_run (c_basic c) (world_of c) ps None (c_full c) &&
+      match_run (c_basic c) (world_of c) ps (c_k c) (c_run c) &&
+      prefix_closure_ok c && all_closed (c_full c) && all_closed (c_run c) && blocks_ok c
   | None => false
   end.
